@@ -92,6 +92,7 @@ from lsst.daf.butler.datastores.fileDatastoreClient import (
     FileDatastoreGetPayload,
     FileDatastoreGetPayloadFileInfo,
 )
+from lsst.daf.butler.registry import ConflictingDefinitionError
 from lsst.daf.butler.registry.interfaces import (
     DatabaseInsertMode,
     DatastoreRegistryBridge,
@@ -1195,6 +1196,37 @@ class FileDatastore(GenericBaseDatastore[StoredFileInfo]):
             filtered.append(dataset)
         return _IngestPrepData(filtered)
 
+    def _refuse_datasets_already_stored(self, refs: Iterable[DatasetRef]) -> None:
+        """Raise if this datastore already holds any of the given datasets.
+
+        Parameters
+        ----------
+        refs : `~collections.abc.Iterable` [ `DatasetRef` ]
+            Datasets about to be ingested with new datastore records.
+
+        Raises
+        ------
+        ConflictingDefinitionError
+            Raised if the datastore already has a location or a record for
+            one of the datasets.
+
+        Notes
+        -----
+        This has to be checked before an ingest transfers any file. The
+        transfer overwrites whatever is at the target location and registers
+        an undo action that removes it again, so finding out only when the
+        insertion of the new records fails would delete the artifact of the
+        dataset that is already stored.
+        """
+        refs = list(refs)
+        known = {ref.id for ref in self.bridge.check(refs)}
+        known.update(self._get_stored_records_associated_with_refs(refs, ignore_datastore_records=True))
+        if known:
+            raise ConflictingDefinitionError(
+                f"Datastore {self.name} already holds {len(known)} of the datasets to ingest: "
+                f"{sorted(str(dataset_id) for dataset_id in known)}"
+            )
+
     @transactional
     def _finishIngest(
         self,
@@ -1204,6 +1236,15 @@ class FileDatastore(GenericBaseDatastore[StoredFileInfo]):
         record_validation_info: bool = True,
     ) -> None:
         # Docstring inherited from Datastore._finishIngest.
+        # Datasets that will get new records (everything except the direct
+        # ingest of immutable, UUIDv5-identified files, which replaces them)
+        # must not be held already.
+        self._refuse_datasets_already_stored(
+            ref
+            for dataset in prepData.datasets
+            for ref in dataset.refs
+            if not (transfer == "direct" and ref.id.version == 5)
+        )
         refsAndInfos = []
         progress = Progress("lsst.daf.butler.datastores.FileDatastore.ingest", level=logging.DEBUG)
         for dataset in progress.wrap(prepData.datasets, desc="Ingesting dataset files"):
@@ -2213,6 +2254,10 @@ class FileDatastore(GenericBaseDatastore[StoredFileInfo]):
             raise DatasetTypeNotSupportedError(
                 "Some refs in the Zip file are not supported by this datastore"
             )
+
+        # If any dataset is already present the entire ingest fails; find that
+        # out before the Zip file is transferred over a stored one.
+        self._refuse_datasets_already_stored(refs)
 
         # Transfer the Zip file into the datastore file system.
         # There is no RUN as such to use for naming.
